@@ -5,6 +5,7 @@
 struct arg_field { int type, access; size_t size; bool no_callback; };
 extern struct arg_field AF[MAXVAR + 2]; extern int NAF;
 extern char ARG_NOTE[200];
+extern size_t ARG_CAP_HINT;
 struct cat_command *args_world(int nv, bool with_handler, bool need_all, bool shared);
 void args_run_and_judge(struct cat_command *c, const uint8_t *args, size_t n, const char *focus_prop);
 void args_describe(FILE *f);
